@@ -79,7 +79,7 @@ TreesOK(tr, sc, tn, cov, lost) ==
                  cks == SeqToSet(t.ck)
              IN  /\ \A j \in DOMAIN t.roots : VerdictOK(t.roots[j][2], tn)                            \* RootLaw
                  /\ \A j \in DOMAIN t.wit : VerdictOK(t.wit[j][3], tn) /\ t.wit[j][4] = "pos-ok"      \* WitnessLaw
-                 /\ \A h \in cks : h <= mx                           \* no checkpoint above everything scanned
+                 /\ \A h \in cks : h <= Max2(mx, 0)                  \* no checkpoint above everything scanned (0: the birthday frontier)
                  /\ \A j \in DOMAIN t.ret : t.ret[j] \in cks \/ t.ret[j] > mx
                  /\ \A h \in cov : h \in cks \/ (<< h, i >> \in lost /\ KnownRetain(h, i))    \* RetainedBoundaries
 
@@ -110,7 +110,8 @@ PostOK(post) == \/ PostAgrees(post)
 
 TReset == /\ IsEvent("reset")
           /\ chain' = << >> /\ top' = 0 /\ scanned' = {} /\ txs' = << >> /\ known' = {}
-          /\ ninfo' = << >> /\ links' = {} /\ tip' = -1 /\ maxFrom' = 0 /\ taint' = FALSE
+          /\ ninfo' = << >> /\ links' = {} /\ maxFrom' = 0 /\ taint' = FALSE
+          /\ tip' = Rec[l].post.tip /\ tip' \in {-1, 0}      \* 0: a wallet born into an existing chain knows the block before its birthday
           /\ grid' = Rec[l].grid /\ gbase' = Rec[l].gbase /\ cmAt' = << >> /\ covered' = {} /\ lostOK' = {}
           /\ mck' = EmptyCk /\ mret' = EmptyCk /\ locks' = << >> /\ sugg' = << >>
           /\ PostOK(Rec[l].post)
@@ -199,6 +200,10 @@ TSuggest == /\ IsEvent("suggest")
                    /\ sugg' = rs
             /\ UNCHANGED wvars /\ UNCHANGED cvars /\ UNCHANGED locks
             /\ PostOK(Rec[l].post)
+\* subtree roots of completed shards arrive (put_*_subtree_roots): no effect on the ledger, the scanned set or the tip
+TRoots == /\ IsEvent("roots") /\ Rec[l].res = "ok"
+          /\ UNCHANGED wvars /\ UNCHANGED cvars /\ UNCHANGED locks /\ UNCHANGED sugg
+          /\ PostOK(Rec[l].post)
 TSyncDone == /\ IsEvent("syncdone")
              /\ sugg = << >> /\ top >= 1 /\ scanned = 1..top /\ tip = top
              /\ Rec[l].steps <= Rec[l].blocks
@@ -268,7 +273,7 @@ TClear == /\ IsEvent("clearlocks") /\ Rec[l].res = "ok"
           /\ PostOK(Rec[l].post)
 
 TraceInit == Init /\ l = 1 /\ locks = << >> /\ sugg = << >> /\ grid = 0 /\ gbase = 0 /\ cmAt = << >> /\ covered = {} /\ lostOK = {} /\ mck = EmptyCk /\ mret = EmptyCk
-TraceNext == TReset \/ TBlock \/ TTip \/ TScan \/ TTrunc \/ TFresh \/ TPropose \/ TLock \/ TUnlock \/ TClear \/ TSuggest \/ TSyncDone
+TraceNext == TReset \/ TBlock \/ TTip \/ TScan \/ TTrunc \/ TFresh \/ TPropose \/ TLock \/ TUnlock \/ TClear \/ TSuggest \/ TSyncDone \/ TRoots
 TraceSpec == TraceInit /\ [][TraceNext]_tvars
 
 Accepted == LET n == TLCGet("stats").diameter - 1
